@@ -149,6 +149,22 @@ def caches(R, P, fns):
     rm, pb = f.calls("aws_linked_list_remove"), f.calls("aws_linked_list_push_back")
     R.check(len(rm) == 1 and len(pb) == 1 and ev_dominates(f, rm[0], pb[0]) and argstr(f, rm[0].node, 0) == argstr(f, pb[0].node, 1) == "node->node" and argstr(f, pb[0].node, 0) == "table->list", "POLICY",
             "move-to-end", "%s()" % f.name, "unlink then append the same node to this table's list", "move-to-end does not unlink and re-append the same node")
+    if rm and pb:
+        tsm = Typestate(f, 0, lambda e, s: 1 if (e is rm[0] and s == 0) else (2 if (e is pb[0] and s == 1) else s))
+        bad = []
+        for r_ in f.returns():
+            for s_ in tsm.before.get(r_.pos, set()):
+                if s_ == 2:
+                    continue
+                # not moved: only acceptable when the node is known to be the back of this table's list already
+                gs_ = [RU.cmp_norm(f, c_, p_) for c_, p_, b_ in RU.guards(f, r_)]
+                at_back = any(g_ and g_[1] == "==" and g_[2] is not None and {f.show(RU.uncast(f, g_[0])).replace(" ", ""), f.show(RU.uncast(f, g_[2])).replace(" ", "")} == {"aws_linked_list_back(&table->list)", "&node->node"} for g_ in gs_)
+                if not at_back:
+                    bad.append((r_.node.get("loc", [0])[0], s_))
+        if not f.returns():
+            bad = [("end", s_) for s_ in tsm.exit_states if s_ != 2]
+        R.check(not bad and 2 in tsm.exit_states, "POLICY", "move-to-end:unconditional", "%s()" % f.name, "every call unlinks the node and appends it (a return without moving is accepted only when the node is the list's back already)",
+                "a path through move-to-end returns without moving the node (%s) although it need not be the back of the list: a lookup of that entry does not count as a use, so the wrong entry is evicted later" % bad)
 
 
 def table(R, P, fns):
@@ -159,7 +175,18 @@ def table(R, P, fns):
     kd = [e for e in f.indirect_calls() if RU.indirect_via(f, e.node) == ("aws_linked_hash_table", "user_on_key_destroy")]
     pb = f.calls("aws_linked_list_push_back")
     alloc = f.calls({"aws_mem_calloc", "aws_mem_acquire"})
-    R.require(len(cr) == 1 and len(ed) == 1 and len(kd) == 1 and len(pb) == 1 and len(alloc) == 1, "linked_hash_table_put: step missing")
+    R.require(len(cr) == 1 and len(kd) == 1 and len(pb) == 1 and len(alloc) == 1, "linked_hash_table_put: step missing")
+    R.check(len(ed) == 1, "PUT", "old-node-destroyed-through-the-element-destructor", "%s()" % f.name, "an overwritten entry's node goes through s_element_destroy (value destructor, unlink, release)",
+            "put has %d calls of s_element_destroy: an overwritten entry's old node is not unlinked and released (it keeps its old place in the order, or leaks)" % len(ed))
+    if cr and pb:
+        # every successful return has appended a node exactly once: a re-inserted key moves to the back
+        tsx0 = Typestate(f, 0, lambda e, s: min(s + 1, 2) if e is pb[0] else s)
+        for r_ in f.returns():
+            v = RU.uncast(f, r_.node["a"][0]) if r_.node["a"] else None
+            if v is not None and f.is_const(v) == 0:
+                sts_ = tsx0.before.get(r_.pos, set())
+                R.check(sts_ == {1}, "PUT", "success-has-appended-once:line%d" % r_.node["loc"][0], where(f, r_), "a successful put has appended the entry's node to the back of the order",
+                        "a successful return is reached with %s appends: an overwritten entry keeps its old position (FIFO/LIFO/LRU then evict the wrong entry)" % sorted(sts_))
     if not (cr and ed and kd and pb and alloc):
         return
     st_key = [e for e in f.field_accesses(rec="aws_hash_element", field="key", modes=("w",))]
@@ -240,6 +267,8 @@ MUTANTS = [
      "old": "if (aws_linked_hash_table_get_element_count(&cache->table) > cache->max_items) {", "new": "if (aws_linked_hash_table_get_element_count(&cache->table) >= cache->max_items) {"},
     {"name": "lru-find-plain", "file": "source/lru_cache.c", "expect": "POLICY",
      "old": "return (aws_linked_hash_table_find_and_move_to_back(&cache->table, key, p_value));", "new": "return (aws_linked_hash_table_find(&cache->table, key, p_value));"},
+    {"name": "move-to-end-shortcut", "file": LHT, "expect": "POLICY", "old": "    struct aws_linked_hash_table_node *node) {\n\n    aws_linked_list_remove(&node->node);", "new": "    struct aws_linked_hash_table_node *node) {\n\n    if (aws_linked_list_next(&node->node) == aws_linked_list_back(&table->list)) {\n        return;\n    }\n    aws_linked_list_remove(&node->node);"},
+    {"name": "overwrite-refreshes-in-place", "file": LHT, "expect": "PUT", "old": "        element->key = key;\n    }\n\n    node->value = p_value;", "new": "        element->key = key;\n        if (was_added == 2) {\n            aws_mem_release(table->allocator, node);\n            return AWS_OP_SUCCESS;\n        }\n    }\n\n    node->value = p_value;"},
     {"name": "node-keeps-old-key", "file": LHT, "expect": "PUT", "old": "    node->key = key;\n", "new": "    node->key = element->key;\n"},
     {"name": "old-key-always-destroyed", "file": LHT, "expect": "PUT", "old": "if (table->user_on_key_destroy && element->key != key) {", "new": "if (table->user_on_key_destroy) {"},
     {"name": "release-before-unlink", "file": LHT, "expect": "DESTROY",
